@@ -88,12 +88,13 @@ def run(ctx):
                         return {"instrumentation": instr_mon.make_instrumentations(log, n_instr),
                                 "middlewares": [instr_mon.make_middleware(log, i) for i in range(n_mw)]}
 
-                    def run_with(ch, config=config):
+                    def run_with(ch, config=config, eager=False):
                         log.events = []
-                        return exec_mon.run_request(config, case, text, op, variables, ch, extra)
+                        return exec_mon.run_request(config, case, text, op, variables, ch, extra, eager=eager)
 
                     seen = set()
-                    for schedule, (out, trace), exh in exec_mon.schedules(config, rng, run_with, max_exh, n_samples):
+                    for schedule, (out, trace), exh in exec_mon.schedules(config, rng, run_with, max_exh, n_samples,
+                        eager_run_with=lambda ch, run_with=run_with: run_with(ch, eager=True)):
                         events = list(log.events)
                         ctx.evaluated()
                         ctx.count("runs:" + config)
